@@ -36,7 +36,24 @@ class C14Scenario(ChangeScenario):
         K = self.kind
         resume = {h['id']: h for h in self.params['handlers'] if h['on'] == 'resume'}
         succ: dict[tuple[str, str, str], list[float]] = {}
+        # Echo delays are not among the histories this property is quantified over: when the explorer holds the echo of the operator's own
+        # PATCH back for the whole consistency timeout, kopf proceeds on the older view (by design; C02 and C07 spell that carve-out out),
+        # and a handler whose record is only in the newer version runs again. Such executions are not judged for 'at most once'.
+        timeout = float((self.params.get('settings') or {}).get('persistence__consistency_timeout', 5.0))
+        post_rv = {r.rid: int(r.post['metadata']['resourceVersion']) for r in env.world.requests
+                   if r.method == 'patch' and r.status == 200 and isinstance(r.post, dict)}
+        own_rv: dict[tuple[str, str], tuple[int, float]] = {}
+        stale_after_timeout: set[tuple[str, str]] = set()
         for t, k, p in env.obs:
+            if k == 'srv' and p.get('rid') in post_rv and p['verb'] in ('serve', 'respond'):
+                oname = p['path'].rstrip('/').split('/')[-1 if not p['path'].endswith('/status') else -2]
+                if post_rv[p['rid']] > own_rv.get((p['op'], oname), (0, 0.0))[0]:
+                    own_rv[(p['op'], oname)] = (post_rv[p['rid']], t)
+                continue
+            if k == 'call' and p.get('rv') is not None and p.get('name') is not None:
+                rv_own, t_own = own_rv.get((p['op'], p['name']), (0, 0.0))
+                if int(p['rv']) < rv_own and t >= t_own + timeout - 1e-9:
+                    stale_after_timeout.add((p['op'], p['uid']))
             if k == 'call' and p['id'] in resume:
                 if p['deleting'] and not resume[p['id']].get('deleted'):
                     out.append(self.viol(env, 'resume-on-deleting', f"t={t}: resume handler {p['id']} ran on an object marked for deletion without opting in",
@@ -44,7 +61,7 @@ class C14Scenario(ChangeScenario):
                 if p['outcome'].split(',')[0] == 'ok':
                     succ.setdefault((p['op'], p['uid'], p['id']), []).append(t)
         for (op, uid, hid), times in succ.items():
-            if len(times) > 1:
+            if len(times) > 1 and (op, uid) not in stale_after_timeout:
                 out.append(self.viol(env, 'resumed-twice', f"resume handler {hid} succeeded {len(times)} times for object {uid} in process {op}: at {times}",
                                      clause='once'))
         # objects first seen through the watch in a process: no resume at all in that process
